@@ -122,6 +122,17 @@ let () =
     let kv = kv_of tk in
     let (sb, sr) = base_rel (get kv "src" "") and (db, dr) = base_rel (get kv "dest" "") in
     let o = copy_opts kv in
+    (* live=NAME liveat=t,bits : the source NAME received this point (clock t) and was synced while
+       the first matched file was being copied, i.e. before any later file was read *)
+    (match get kv "live" "", String.split_on_char ',' (get kv "liveat" "") with
+     | name, [t; bits] when name <> "" ->
+       (match lookup name with
+        | Some h -> (match reopen h with
+            | Some h' -> let (h'', _) = h_update flocq_fops h' (z_of_int (-1)) (z_of_dec t) (z_of_hex bits) (z_of_dec t) in
+              set_file name (Some (sync h''))
+            | None -> ())
+        | None -> ())
+     | _ -> ());
     let globbed = get kv "files" "-" <> "-" || String.contains sr '*' || String.contains sr '?' || String.contains sr '[' in
     if globbed then begin
       let files = split_on ',' (get kv "files" "-") in
